@@ -72,6 +72,7 @@ class Policy(BiddingSystem, PlayingSystem):
         return c
 
     def _play(self, hand, env):
+        self.last_env = env
         self.cards += 1
         pool = sorted(env.current_available_cards(hand), key=int)
         return self.r.choice(pool)
@@ -153,27 +154,20 @@ class VClient(Client):
         return k
 
     def playing_phase(self, contract):
-        # capture the client's own play replica at the end of the board
-        import bridge_env.network_bridge.client as cl
-        orig = cl.ObservedPlayingPhase
-        holder = {}
-
-        class Spy(orig):
-            def __init__(s, *a, **k):
-                super().__init__(*a, **k)
-                holder['env'] = s
-        cl.ObservedPlayingPhase = Spy
+        # the client's own play replica is the env object handed to its playing system (captured there, per client)
+        self.bidding_system.last_env = None
         try:
             return super().playing_phase(contract)
         finally:
-            cl.ObservedPlayingPhase = orig
-            e = holder.get('env')
+            e = self.bidding_system.last_env
             if e is not None and self.replicas:
                 self.replicas[-1]['play'] = dict(
                     leader=SEATS.index(e.leader), active=SEATS.index(e.active_player), trick_num=e.trick_num,
                     ns=e.taken_tricks[Pair.NS], ew=e.taken_tricks[Pair.EW], done=bool(e.has_done()),
                     history=[[SEATS.index(t.leader), [int(c) for c in t.cards]] for t in e.playing_history.history],
                     hand=ids(e.hand), dummy=None if e.dummy_hand is None else ids(e.dummy_hand))
+            elif self.replicas:
+                self.replicas[-1]['play'] = 'unobserved'      # dummy's client never consults its playing system
 
 
 class VSock(cs.FakeSock):
@@ -239,7 +233,7 @@ def run_session(k):
     PT.is_alive = lambda self: S.threads[self._csn]['state'] != 'done'
 
     boards = [BoardSetting(Hands(*[set(C(c) for c in h) for h in b['deal']]), SEATS[b['dealer']], VULS[b['vul']], b['board_id'],
-                           None if b.get('dda') is None else {SEATS[p]: dict(zip(__import__('bridge_env').Suit, row)) for p, row in b['dda']})
+                           None if b.get('dda') is None else {SEATS[p]: {list(__import__('bridge_env').Suit)[s]: n for s, n in row} for p, row in b['dda']})
               for b in k['boards']]
     tmp = tempfile.mkdtemp(prefix='verif_sess_', dir=os.environ.get('VERIF_WORK', None))
     out = pathlib.Path(tmp) / 'out.json'
